@@ -18,6 +18,10 @@ import (
 	"google.golang.org/grpc/keepalive"
 )
 
+// maxMessageSize bounds a single gRPC message: the largest value the service
+// accepts (10MB) plus room for the key and the message framing
+const maxMessageSize = 16 * 1024 * 1024
+
 // Server represents the Kevo server
 type Server struct {
 	eng                *engine.EngineFacade
@@ -93,6 +97,10 @@ func (s *Server) Start() error {
 	serverOpts = append(serverOpts,
 		grpc.KeepaliveParams(kaProps),
 		grpc.KeepaliveEnforcementPolicy(kaPolicy),
+		// The service accepts values of up to 10MB; gRPC's default limit of 4MB per
+		// received message would refuse them before the service sees the request
+		grpc.MaxRecvMsgSize(maxMessageSize),
+		grpc.MaxSendMsgSize(maxMessageSize),
 	)
 
 	// Create gRPC server with options
